@@ -340,3 +340,15 @@ impl<T: Default + Copy> std::fmt::Display for LengthStats<T> {
 
 #[cfg(abyssiniandb_verif)]
 pub use inner::verif;
+
+#[cfg(abyssiniandb_verif)]
+pub mod verif_stats {
+    //! verification hooks: read access to the private vectors of the statistics types.
+    use super::*;
+    pub fn size_vec<T: Copy>(s: &RecordSizeStats<T>) -> Vec<(u32, u64)> {
+        s.0.iter().map(|&(a, b)| (a.as_value(), b)).collect()
+    }
+    pub fn length_vec<T: Default + Copy>(s: &LengthStats<T>) -> Vec<(u32, u64)> {
+        s.0.iter().map(|&(a, b)| (a.as_value(), b)).collect()
+    }
+}
